@@ -737,6 +737,7 @@ func main() {
 	writeRegistryFacts(filepath.Join(*out, "RegistryFacts.lean"), sections, mapOps, fieldCall)
 	writeDispatchFacts(filepath.Join(*out, "DispatchFacts.lean"), pk[0])
 	writeDecisions(filepath.Join(*out, "Decisions.lean"), pk[0])
+	writeSinkFacts(filepath.Join(*out, "SinkFacts.lean"), pk[4])
 }
 
 // callerHoldsLock: unexported helpers whose doc comment says the caller holds the lock, or that
@@ -1053,6 +1054,51 @@ func writeRegistryFacts(path string, sections map[string]int, mapOps, fieldCall 
 		sb.WriteString(parts[0] + sep + " -- " + parts[1] + "\n")
 	}
 	sb.WriteString("]\n\nend Evl.Generated\n")
+	os.WriteFile(path, []byte(sb.String()), 0o644)
+}
+
+// writeSinkFacts: ChannelSink.Process hands the event over in ONE select that also watches the context and a timer
+func writeSinkFacts(path string, p *pkgInfo) {
+	selects, sendWithCtx, sendWithTimer, bareSends := 0, false, false, 0
+	if fd := p.funcs["ChannelSink.Process"]; fd != nil {
+		ast.Inspect(fd.Body, func(n ast.Node) bool {
+			switch t := n.(type) {
+			case *ast.SelectStmt:
+				selects++
+				hasSend, hasCtx, hasTimer := false, false, false
+				for _, c := range t.Body.List {
+					cc := c.(*ast.CommClause)
+					if cc.Comm == nil {
+						continue
+					}
+					src := exprString(p.fset, cc.Comm)
+					if _, ok := cc.Comm.(*ast.SendStmt); ok {
+						hasSend = true
+					}
+					if strings.Contains(src, "ctx.Done()") {
+						hasCtx = true
+					}
+					if strings.Contains(src, "time.After(") || strings.Contains(src, ".C") {
+						hasTimer = true
+					}
+				}
+				if hasSend {
+					sendWithCtx = sendWithCtx || hasCtx
+					sendWithTimer = sendWithTimer || hasTimer
+					if !hasCtx || !hasTimer {
+						bareSends++
+					}
+				}
+				return false
+			case *ast.SendStmt:
+				bareSends++
+			}
+			return true
+		})
+	}
+	var sb strings.Builder
+	sb.WriteString("/- GENERATED by harness/cmd/gofacts from /repo's current source. Do not edit. -/\nnamespace Evl.Generated\n\n")
+	sb.WriteString(fmt.Sprintf("/-- ChannelSink.Process: number of selects; the channel send sits in a select with a ctx.Done() arm / a timer arm; sends not so guarded -/\ndef channelSelects : Nat := %d\ndef channelSendWithCtx : Bool := %v\ndef channelSendWithTimer : Bool := %v\ndef channelUnguardedSends : Nat := %d\n\nend Evl.Generated\n", selects, sendWithCtx, sendWithTimer, bareSends))
 	os.WriteFile(path, []byte(sb.String()), 0o644)
 }
 
